@@ -9,8 +9,9 @@ valid parameters (expect `ok=1`) and on invalid ones (expect `ok=0`).
 Protocol (`c10 kind=<k> …`; every value is a decimal integer or a comma separated list):
 
   kind=filter  shape=<ints> fshape=<ints> mode=<0..5, Mode.ofCode>
-      -> `idx=<list> ok=<0|1> n=<len> rows=<list> nrows=<int>`; `rows` = for every array position the
-         row of the offsets table in use there (`tableRow`), `nrows` = `offsets_size`; `idx` lists, for every array position p (C scan order, outer)
+      -> `idx=<list> ok=<0|1> n=<len> rows=<list> nrows=<int>`; `rows` = for every array position (scan order)
+         the row of the offsets table the pointer arithmetic of `iterate_both` has reached (`scanState`;
+         proved equal to `tableRow`), `nrows` = `offsets_size`; `idx` lists, for every array position p (C scan order, outer)
          and every filter coordinate k (C scan order, inner), the C-order flat index of the element
          the filter iterator reads (`ravelZ`, signed), or -1 for the border flag. `ok=1` iff every
          non-flag coordinate list is inside `shape`.
@@ -173,6 +174,43 @@ def regionIdxPos : List Nat → List Nat → List Int → List Int
     `strides[d] = Π_{e>d} step_e` (times `filter_size`, the row length) — a C-order flat index over `minShape`. -/
 def tableRow (ashape fshape : List Nat) (p : List Int) : Nat :=
   ravelI (minShape ashape fshape) (regionIdxPos ashape fshape p)
+
+/-- `++iterator` of the array iterator (`numpypp/array.hpp`): C-order odometer on the coordinates;
+    `none` = past the last element. -/
+def succPos : List Nat → List Int → Option (List Int)
+  | a :: as, p :: ps =>
+    match succPos as ps with
+    | some ps' => some (p :: ps')
+    | none => if p < (a : Int) - 1 then some ((p + 1) :: ps.map (fun _ => 0)) else none
+  | _, _ => none
+
+/-- `filter_iterator::iterate_both` (`_filters.h`), in units of table rows: from the last axis
+    backwards, `if (p < dim-1) { if (p < minbound || p >= maxbound) idx += strides[d]; break; }
+    idx -= backstrides[d];` with `strides[d] = Π_{e>d} step_e`, `backstrides[d] = (step_d-1)·strides[d]`,
+    `step = min(ashape, fshape)`, `minbound = orgn`, `maxbound = ashape - fshape + orgn`.
+    Returns the change of the row pointer and whether every axis wrapped (end of the array). -/
+def iterateBothDelta : List Nat → List Nat → List Int → Int × Bool
+  | a :: as, f :: fs, p :: ps =>
+    let r := iterateBothDelta as fs ps
+    if !r.2 then (r.1, false)
+    else
+      let stride : Int := (shapeSize (minShape as fs) : Int)
+      if p < (a : Int) - 1 then
+        (r.1 + (if p < origin f ∨ p ≥ (a : Int) - f + origin f then stride else 0), false)
+      else (r.1 - (((min a f : Nat) : Int) - 1) * stride, true)
+  | _, _, _ => (0, true)
+
+/-- the scan of a kernel: `n` times `iterate_both` from the first element; position of the array
+    iterator and row pointer of the filter iterator. -/
+def scanState (ashape fshape : List Nat) : Nat → Option (List Int × Int)
+  | 0 => some (ashape.map (fun _ => 0), 0)
+  | n + 1 =>
+    match scanState ashape fshape n with
+    | some (p, row) =>
+      match succPos ashape p with
+      | some p' => some (p', row + (iterateBothDelta ashape fshape p).1)
+      | none => none
+    | none => none
 
 /-! ## B2 — `fast_binary_dilate_erode_2d` (`_morph.cpp`) -/
 
@@ -398,8 +436,11 @@ def handle (a : Args) : String :=
       let shape := a.nats "shape"
       let fshape := a.nats "fshape"
       let idx := filterIdx m shape fshape
-      let rows := (allPos shape).map (tableRow shape fshape)
-      s!"idx={showInts idx} ok={b2s (filterOk m shape fshape)} n={idx.length} rows={showNats rows} nrows={shapeSize (minShape shape fshape)}"
+      let rows := (List.range (shapeSize shape)).map fun n =>
+        match scanState shape fshape n with
+        | some (_, row) => row
+        | none => -1
+      s!"idx={showInts idx} ok={b2s (filterOk m shape fshape)} n={idx.length} rows={showInts rows} nrows={shapeSize (minShape shape fshape)}"
   | "region" =>
     let a' := a.nat "a"; let f := a.nat "f"
     let idx := (List.range a').map (regionIndex a' f)
